@@ -19,11 +19,12 @@ import SpVerif.Drive.Post
 import SpVerif.Drive.History
 import SpVerif.Drive.ConfigLoop
 import SpVerif.Drive.Subgroups
+import SpVerif.Drive.Help
 open Lean SpVerif.Drive
 
 /-- every op of every per-property driver module: add `++ <module>Ops` here -/
 def allOps : List (String × (Json → R Json)) :=
-  namingOps ++ conflictsOps ++ replaceOps ++ docScanOps ++ engineOps ++ callablesOps ++ fieldsOps ++ subclassOps ++ serialOps ++ defaultsOps ++ annotOps ++ mergeOps ++ layersOps ++ postOps ++ historyOps ++ configLoopOps ++ subgroupsOps
+  namingOps ++ conflictsOps ++ replaceOps ++ docScanOps ++ engineOps ++ callablesOps ++ fieldsOps ++ subclassOps ++ serialOps ++ defaultsOps ++ annotOps ++ mergeOps ++ layersOps ++ postOps ++ historyOps ++ configLoopOps ++ subgroupsOps ++ helpOps
 
 def dispatch (op : String) (c : Json) : R Json :=
   match allOps.lookup op with
